@@ -153,7 +153,56 @@ fn roundtrip(ctx: &mut Ctx, base: &Xstate, enc: &str, input: Cell, b: &[u8], sen
         || format!("ok b{}", bits_of_bytes(b).iter().map(|x| if *x { '1' } else { '0' }).collect::<String>()),
         || d.out.clone(),
     );
+    // the text is a string whatever tags it carries (it may have come out of a map, or been labelled by the program):
+    // a tagged copy decodes to the same bytes
+    {
+        let mut tags = Xmap::new();
+        tags.insert_mut(Cell::from("src"), Cell::from("demo"));
+        let tagged = Cell::from(text.clone()).with_tags(tags);
+        let dt = run_word(base, &dec_of(enc), &[tagged]);
+        let back_t = dt.top.as_ref().and_then(bytes_of_cell);
+        ctx.check(dt.depth == 1 && back_t.as_deref() == Some(b), || format!("{} ; {} of the text carrying a tag", case, dec_of(enc)), || d.out.clone(), || dt.out.clone());
+    }
     Some(text)
+}
+
+/// inputs of several thousand bytes: whatever block size an encoder works with inside, the text of a whole number of
+/// groups is a prefix of the text of any longer input that starts with them, the length is the length of the groups,
+/// and decoding gives the bytes back (too long for the request lines of the model: oracle on the implementation only)
+fn long_inputs(ctx: &mut Ctx, base: &Xstate) {
+    let sizes: Vec<usize> = {
+        let mut v = vec![4095, 4096, 4097, 4100, 8191, 8192, 8193, 12288, 16385];
+        for _ in 0..(if ctx.thorough { 12 } else { 3 }) { v.push(2000 + ctx.rng.below(30000)); }
+        v
+    };
+    for n in sizes {
+        let b: Vec<u8> = (0..n).map(|_| ctx.rng.next_u64() as u8).collect();
+        for enc in ENC {
+            let group = match *enc { "base64" => 3, "zero85" => 4, _ => 5 };
+            let chars = match *enc { "base64" => 4, "zero85" => 5, _ => 8 };
+            let whole = run_word(base, enc, &[bytes_cell(&b)]);
+            let text = match whole.top.as_ref().and_then(str_of_cell) { Some(t) => t, None => { ctx.oracle_fail(format!("C18 {} of {} random bytes", enc, n), "a string".into(), whole.out.clone()); continue; } };
+            let case = format!("C18 {} of {} random bytes (seeded)", enc, n);
+            // length
+            // (base32hex is the unpadded Crockford form; zero85 marks its tail, its length is left to the round trip)
+            let expect_len = match *enc { "zero85" => text.len(), "base32hex" => (n * 8 + 4) / 5, _ => (n + group - 1) / group * chars };
+            ctx.check(text.len() == expect_len, || case.clone(), || format!("{} characters", expect_len), || format!("{} characters", text.len()));
+            // prefix law at a few cuts that are whole groups
+            for _ in 0..3 {
+                let k = (1 + ctx.rng.below(n / group)) * group;
+                let part = run_word(base, enc, &[bytes_cell(&b[..k])]);
+                let pt = part.top.as_ref().and_then(str_of_cell).unwrap_or_default();
+                ctx.check(!pt.is_empty() && text.starts_with(&pt), || format!("{}: the text of its first {} bytes", case, k), || "a prefix of the whole text".into(),
+                    || { let i = pt.bytes().zip(text.bytes()).position(|(x, y)| x != y).unwrap_or(pt.len().min(text.len())); format!("differs at character {}", i) });
+            }
+            // round trip
+            let d = run_word(base, &dec_of(enc), &[Cell::from(text.clone())]);
+            let back = d.top.as_ref().and_then(bytes_of_cell);
+            ctx.check(back.as_deref() == Some(&b[..]), || format!("{} ; {}", case, dec_of(enc)), || format!("the {} bytes", n),
+                || match &back { Some(x) => format!("{} bytes, first difference at {:?}", x.len(), x.iter().zip(b.iter()).position(|(p, q)| p != q)), None => d.out.chars().take(80).collect() });
+            ctx.tag("long-input");
+        }
+    }
 }
 
 fn patterns(len: usize, thorough: bool) -> Vec<(&'static str, Vec<u8>)> {
@@ -641,6 +690,8 @@ pub fn run(ctx: &mut Ctx) {
             ctx.check(r.out != "panic", || line(&w, &args), || "no panic".into(), || r.out.clone());
         }
     }
+
+    long_inputs(ctx, &base);
 
     // 4. exhaustive small scopes: every text of length ≤ 2 (quick) / ≤ 3 (thorough, reduced alphabet) over
     //    alphabet ∪ {padding, one outsider}, every single byte 0..=255 as a one-byte string where it is valid UTF-8
